@@ -11,6 +11,7 @@ import (
 
 	"google.golang.org/protobuf/encoding/prototext"
 	"google.golang.org/protobuf/internal/encoding/defval"
+	"google.golang.org/protobuf/internal/encoding/text"
 	testpb "google.golang.org/protobuf/internal/testprotos/test"
 	"google.golang.org/protobuf/proto"
 	"google.golang.org/protobuf/reflect/protodesc"
@@ -259,6 +260,43 @@ func textdvFloat32(c *Ctx, bits uint32, m *testpb.TestAllTypes, m2 *testpb.TestA
 	}
 }
 
+// textdvFloat32Fast: the hot loop of the sweep: defval (Descriptor format) and
+// exactly the text.Encoder / text.Decoder calls that prototext makes for a
+// float field (Encoder.WriteFloat(v, 32), Token.Float32()).
+func textdvFloat32Fast(c *Ctx, bits uint32, buf []byte) {
+	f := math.Float32frombits(bits)
+	v := protoreflect.ValueOfFloat32(f)
+	s, err := defval.Marshal(v, nil, protoreflect.FloatKind, defval.Descriptor)
+	var v2 protoreflect.Value
+	if err == nil {
+		v2, _, err = defval.Unmarshal(s, protoreflect.FloatKind, nil, defval.Descriptor)
+	}
+	if err != nil || !textdvEqual(protoreflect.FloatKind, v, v2) {
+		c.PropFail("C39", "float32 default does not round trip", HexN(uint64(bits)), HexB([]byte(s)))
+	}
+	enc, err := text.NewEncoder(buf[:0], "", [2]byte{}, false)
+	if err != nil {
+		panic(err)
+	}
+	enc.WriteName("f")
+	enc.WriteFloat(float64(f), 32)
+	out := enc.Bytes()
+	d := text.NewDecoder(out)
+	if _, err := d.Read(); err != nil {
+		c.PropFail("C24", "float32 text: name token", HexN(uint64(bits)), HexB(out))
+		return
+	}
+	tok, err := d.Read()
+	var got float32
+	ok := false
+	if err == nil {
+		got, ok = tok.Float32()
+	}
+	if !ok || !textdvEqual(protoreflect.FloatKind, v, protoreflect.ValueOfFloat32(got)) {
+		c.PropFail("C24", "float32 does not round trip through the text encoder/decoder", HexN(uint64(bits)), HexB(out))
+	}
+}
+
 func textdvFloat64(c *Ctx, bits uint64) {
 	f := math.Float64frombits(bits)
 	v := protoreflect.ValueOfFloat64(f)
@@ -393,19 +431,30 @@ func famTextDv(c *Ctx) {
 		}
 	}
 	// 2. float32 sweep: exhaustive in the thorough tier (16 shards selected by
-	// the seed), 10^6 random bit patterns (split over the shards) otherwise
+	// the seed), 10^6 random bit patterns (split over the shards) otherwise.
+	// The sweep uses the light path (defval Descriptor format + the text
+	// Encoder/Decoder calls prototext makes); every 4096th value and every
+	// quick-tier value with i%8 == 0 also takes the full prototext path.
 	{
 		m, m2 := &testpb.TestAllTypes{}, &testpb.TestAllTypes{}
+		buf := make([]byte, 0, 64)
 		if c.Tier == "thorough" {
 			shard := uint64(c.Seed % 16)
 			for b := shard << 28; b < (shard+1)<<28; b++ {
-				textdvFloat32(c, uint32(b), m, m2)
+				textdvFloat32Fast(c, uint32(b), buf)
+				if b&4095 == 0 {
+					textdvFloat32(c, uint32(b), m, m2)
+				}
 			}
 			c.StatN("float32.sweep", 1<<28)
 		} else {
 			n := 250000
 			for i := 0; i < n; i++ {
-				textdvFloat32(c, uint32(c.U64()), m, m2)
+				b := uint32(c.U64())
+				textdvFloat32Fast(c, b, buf)
+				if i%8 == 0 {
+					textdvFloat32(c, b, m, m2)
+				}
 			}
 			c.StatN("float32.sweep", n)
 		}
